@@ -212,8 +212,10 @@ class World:
             return 'err'
 
     # front end ---------------------------------------------------------------------------------------
-    async def op_createBatch(self, u, bp, token):
-        return await self.fe._create_batch({'billing_project': f'bp{bp}', 'token': f'tok{token}', 'n_jobs': 0}, userdata(int(u)), self.gdb)
+    async def op_createBatch(self, u, bp, token, n_jobs='0'):
+        # n_jobs = what the client's batch spec announces (create / create-fast pass the spec through); the batch row itself starts empty
+        return await self.fe._create_batch({'billing_project': f'bp{bp}', 'token': f'tok{token}', 'n_jobs': int(n_jobs)}, userdata(int(u)),
+                                           self.gdb)
 
     async def op_createUpdate(self, b, token, n_jobs, n_groups, u):
         upd = await self.fe._create_batch_update(int(b), f'utok{token}', int(n_jobs), int(n_groups), user(int(u)), self.gdb)
